@@ -20,6 +20,7 @@ type timeoutIn struct {
 	D       int           `json:"d"` // ms
 	Steps   []timeoutStep `json:"steps"`
 	Nested  bool          `json:"nested"`  // Timeout(2d) around Timeout(d)
+	EnvProbe bool         `json:"envProbe"` // the wrapped action re-sets a variable of the caller's Context when it finishes (also when abandoned)
 	Lazy    string        `json:"lazy"`    // a modifier applied to the wrapped action last before Timeout: the slow work sits behind it
 	InBatch bool          `json:"inBatch"` // the wrapped Timeout is one of two Batch members
 }
@@ -60,6 +61,9 @@ func runTimeoutOnce(in timeoutIn) (map[string]interface{}, bool) {
 		} else {
 			time.Sleep(time.Duration(dur) * time.Millisecond)
 		}
+		if in.EnvProbe {
+			c.Setenv("LANG", "abandoned"+strconv.Itoa(i)) // a variable the caller's Context already defines
+		}
 		// an abandoned computation still produces (and writes) its result
 		return carapace.ActionValues("res" + strconv.Itoa(i)).Usage("usage" + strconv.Itoa(i)).NoSpace('x')
 	})
@@ -72,7 +76,15 @@ func runTimeoutOnce(in timeoutIn) (map[string]interface{}, bool) {
 	case "filterArgs":
 		wrapped = wrapped.FilterArgs()
 	}
-	a := wrapped.Timeout(d, carapace.ActionValues("alt").Usage("alternative"))
+	var altSaw atomic.Value
+	alt := carapace.ActionValues("alt").Usage("alternative")
+	if in.EnvProbe {
+		alt = carapace.ActionCallback(func(c carapace.Context) carapace.Action {
+			altSaw.Store(c.Getenv("LANG"))
+			return carapace.ActionValues("alt").Usage("alternative")
+		})
+	}
+	a := wrapped.Timeout(d, alt)
 	if in.Nested {
 		a = a.Timeout(2*d, carapace.ActionValues("outer-alt"))
 	}
@@ -81,16 +93,20 @@ func runTimeoutOnce(in timeoutIn) (map[string]interface{}, bool) {
 	}
 	outs := []map[string]interface{}{}
 	stalled := false
+	callerCtx := carapace.Context{}
+	if in.EnvProbe {
+		callerCtx.Env = []string{"OTHER=1", "LANG=caller"}
+	}
 	for i, s := range in.Steps {
 		cur.Store(int64(i))
 		start := time.Now()
 		// watchdog: an answer that does not come at all (the bound is broken) must not hang the harness
 		doneCh := make(chan xResult, 1)
-		go func() { doneCh <- invokeSafe(a, carapace.Context{}) }()
+		go func() { doneCh <- invokeSafe(a, callerCtx) }()
 		var res xResult
 		select {
 		case res = <-doneCh:
-		case <-time.After(3 * time.Second):
+		case <-time.After(d + 3*time.Second):
 			if !released {
 				released = true
 				close(release)
@@ -102,7 +118,14 @@ func runTimeoutOnce(in timeoutIn) (map[string]interface{}, bool) {
 		for _, v := range res.Values {
 			vals = append(vals, v.Value)
 		}
-		outs = append(outs, map[string]interface{}{"values": vals, "usage": res.Usage, "nospace": res.Nospace, "elapsedMs": elapsed.Milliseconds(), "panic": res.Panic})
+		o := map[string]interface{}{"values": vals, "usage": res.Usage, "nospace": res.Nospace, "elapsedMs": elapsed.Milliseconds(), "panic": res.Panic}
+		if in.EnvProbe {
+			saw, _ := altSaw.Load().(string)
+			altSaw.Store("")
+			o["altSaw"] = saw                       // what the alternative read ("" = it did not run)
+			o["callerSees"] = callerCtx.Getenv("LANG") // what the caller's Context holds after the call
+		}
+		outs = append(outs, o)
 		// the answer is due at min(dur, d); more than d/2 later than that means the process was held up
 		due := d
 		if s.Dur >= 0 && s.Dur < in.D {
@@ -118,6 +141,16 @@ func runTimeoutOnce(in timeoutIn) (map[string]interface{}, bool) {
 
 func genTimeout(r *rng, tier string) interface{} {
 	in := timeoutIn{D: pick(r, []int{30, 40, 60}), Nested: r.chance(20), InBatch: r.chance(25), Lazy: pick(r, []string{"", "", "nospace", "callback", "filterArgs"})}
+	if r.chance(10) {
+		// the abandoned computation writes to a variable the caller's Context defines: neither the alternative nor the caller may see it
+		in.EnvProbe, in.Nested, in.InBatch, in.Lazy = true, false, false, ""
+		in.Steps = []timeoutStep{{Dur: in.D * 3, Gap: in.D * 3}, {Dur: in.D * 3, Gap: in.D * 3}, {Dur: 0, Gap: 0}}
+		return in
+	}
+	if r.intn(120) == 0 {
+		// a bound of several seconds around a computation that never returns
+		return timeoutIn{D: 5200, Steps: []timeoutStep{{Dur: -1, Gap: 0}}}
+	}
 	if r.chance(8) {
 		// no time at all (an exhausted budget): the alternative at once, a slow computation is not waited for
 		in.D = pick(r, []int{0, 0, -5})
